@@ -29,6 +29,7 @@ def gen_program(rng, meta, n=None, kinds=None):
     used = {"cell": set(meta["cells"]), "surface": set(meta["surfaces"]), "material": set(meta["materials"]),
             "transform": set(meta["transforms"]), "universe": set(meta["universes"].values())}
     cur = {k: {x: x for x in used[k]} for k in used}   # original number -> current number
+    member = dict(meta["universes"])                   # cell -> (original number of) its universe
 
     def fresh(kind):
         while True:
@@ -91,9 +92,14 @@ def gen_program(rng, meta, n=None, kinds=None):
             o = rng.choice(meta["cells"])
             prog.append({"kind": k, "orig": o, "material": rng.choice(meta["materials"])})
         elif k == "cell_universe" and meta["universes"]:
-            # move a cell that is in a universe into another existing universe (addressed by original number)
+            # move a cell that is in a universe into another existing universe (addressed by original number);
+            # a universe that a FILL refers to must keep at least one cell, or the problem is no longer valid
             o = rng.choice(sorted(meta["universes"]))
-            prog.append({"kind": k, "orig": o, "universe": rng.choice(sorted(set(meta["universes"].values())))})
+            target = rng.choice(sorted(set(meta["universes"].values())))
+            src = member[o]
+            if src != target and sum(1 for c in member if member[c] == src) >= 2:
+                member[o] = target
+                prog.append({"kind": k, "orig": o, "universe": target})
         elif k == "fill_universe" and meta["fills"] and meta["universes"]:
             o = rng.choice(sorted(meta["fills"]))
             prog.append({"kind": k, "orig": o, "universe": rng.choice(sorted(set(meta["universes"].values())))})
